@@ -97,6 +97,38 @@ func firstChild(e *Exchange, ep string) *Exchange {
 	return nil
 }
 
+// ownChildren: while two requests overlap, the calls recorded during a request may be the other
+// request's; a call belongs to the request whose session's token (or e-mail) it carries.
+func ownChildren(e *Exchange, access, refresh, email string) []*Exchange {
+	if !e.Overlap {
+		return e.Children
+	}
+	var out []*Exchange
+	for _, c := range e.Children {
+		if c.Link != L2 {
+			out = append(out, c)
+			continue
+		}
+		switch endpointOf(c.Path) {
+		case "validate":
+			if c.ReqHdr.Get("X-Access-Token") == access {
+				out = append(out, c)
+			}
+		case "refresh":
+			if strings.Contains(string(c.ReqBody), "refresh_token="+refresh) {
+				out = append(out, c)
+			}
+		case "profile":
+			if strings.Contains(c.RawQuery, "email="+strings.ReplaceAll(email, "@", "%40")) {
+				out = append(out, c)
+			}
+		default:
+			out = append(out, c)
+		}
+	}
+	return out
+}
+
 // sessionVerdict is the model's reading of one request that presented a session cookie.
 type sessionVerdict struct {
 	S         *sessions.SessionState
@@ -237,6 +269,12 @@ func (o *Oracle) judgeMediation(e *Exchange, pol *Policy, path string) {
 			break
 		}
 	}
+	if e.Overlap && sv != nil {
+		own := *e
+		own.Children = ownChildren(e, sv.S.AccessToken, sv.S.RefreshToken, sv.S.Email)
+		e = &own
+		o.res.cover("C16|world-twin|judged")
+	}
 	if !granted {
 		// C01.A7: sign-in redirect or error, and no upstream content
 		if strings.Contains(string(e.RespBody), "UPSTREAM-CONTENT[") {
@@ -285,7 +323,7 @@ func (o *Oracle) judgeMediation(e *Exchange, pol *Policy, path string) {
 		o.violate(e, "C01.A2-slug-and-host-binding", fmt.Sprintf("session bound to %q accepted on %q", S.AuthorizedUpstream, e.Host))
 		o.violate(e, "C13.A4-no-cross-host-session", fmt.Sprintf("session bound to %q accepted on %q", S.AuthorizedUpstream, e.Host))
 	}
-	if at.After(S.LifetimeDeadline.Add(margin)) {
+	if at.After(S.LifetimeDeadline) { // read from the sealed cookie: no rounding to allow for
 		o.violate(e, "C01.A3-within-lifetime", fmt.Sprintf("granted %v after the cookie's lifetime deadline", at.Sub(S.LifetimeDeadline)))
 		o.violate(e, "C04.A3-lifetime-bound", fmt.Sprintf("granted %v after the cookie's lifetime deadline", at.Sub(S.LifetimeDeadline)))
 	}
